@@ -7,7 +7,7 @@ package forwarder
 // connection loop (http.ReadRequest, scheme fix-up, modifier stack, upgrade handling) runs over scripted request
 // bytes; the next hop is a recording RoundTripper.
 //
-//vf:assume C01: header lists of <=2 (quick) / <=3 (thorough) fields drawn from a 21-entry pool of names (end-to-end, hop-by-hop, Connection with nominations, Via, X-Forwarded-*, User-Agent, Authorization) with symbolic 2-byte printable values where the value is free; methods GET/POST; absolute- and origin-form targets with an escaped query; HTTP/1.0 and 1.1; bodies: none / Content-Length / chunked in 1 or 2 chunks (3 symbolic bytes); first or second request of a keep-alive connection
+//vf:assume C01: header lists of <=2 (quick) / <=3 (thorough) fields drawn from a 24-entry pool of names (end-to-end, hop-by-hop, Connection with nominations, Via, X-Forwarded-*, User-Agent, Authorization) with symbolic 2-byte printable values where the value is free; methods GET/POST; absolute- and origin-form targets with an escaped query; HTTP/1.0 and 1.1; bodies: none / Content-Length / chunked in 1 or 2 chunks (3 symbolic bytes); first or second request of a keep-alive connection
 //vf:assume C01: the next hop is a recording RoundTripper: what http.Transport does afterwards (Accept-Encoding: gzip, serialisation, connection reuse) and bodies near the 4 KiB / 32 KiB buffer sizes are outside
 
 import (
@@ -30,6 +30,7 @@ var vfFieldPool = []vfFieldSpec{
 	{"Connection", "close"}, {"Connection", "X-B"}, {"Connection", "x-a, Keep-Alive"},
 	{"Via", "1.0 alpha"}, {"Via", ""}, {"X-Forwarded-For", "1.2.3.4"}, {"X-Forwarded-For", ""}, {"X-Forwarded-Proto", "https"},
 	{"X-Forwarded-Host", ""}, {"X-Forwarded-Url", ""},
+	{"Upgrade", "websocket"}, {"Connection", "Upgrade"}, {"Connection", "keep-alive, Upgrade"},
 }
 
 func vfPrintable(label string, n int) string {
@@ -74,7 +75,7 @@ func vfValues(sent []vfSent, name string) []string {
 	return vs
 }
 
-//vf:harness property=C01 nopanic reach=c01-first,c01-second,c01-body-cl,c01-body-chunked,c01-origin-form steps=8000000
+//vf:harness property=C01 nopanic reach=c01-first,c01-second,c01-body-cl,c01-body-chunked,c01-origin-form,c01-upgrade steps=8000000
 func vfH_C01_pipe() {
 	cfg := HTTPProxyConfig{}
 	cfg.Name = "fw"
@@ -102,38 +103,61 @@ func vfH_C01_pipe() {
 			closing = true
 		}
 	}
+	// request shape: the thorough tier takes the full product, the quick tier a covering set of 8 combinations
+	bodyKind, chunks2, http10, originForm, secondReq := 0, false, false, false, false
+	if vfrt.Thorough() {
+		bodyKind = vfrt.Choice("body", 4)
+		chunks2 = bodyKind >= 2 && vfrt.Choice("chunks", 2) == 1
+		http10 = vfrt.Choice("http10", 2) == 1
+		originForm = vfrt.Choice("origin-form", 2) == 1
+		secondReq = vfrt.Choice("second-on-connection", 2) == 1
+	} else {
+		switch vfrt.Choice("shape", 8) {
+		case 0:
+		case 1:
+			bodyKind, secondReq = 1, true
+		case 2:
+			bodyKind, originForm = 2, true
+		case 3:
+			bodyKind, chunks2, secondReq = 3, true, true
+		case 4:
+			http10, originForm = true, true
+		case 5:
+			bodyKind, http10, secondReq = 1, true, true
+		case 6:
+			originForm, secondReq = true, true
+		case 7:
+			bodyKind, chunks2 = 2, true
+		}
+	}
 	method, body, framing := "GET", "", ""
-	switch vfrt.Choice("body", 4) {
+	switch bodyKind {
 	case 1:
 		method, body = "POST", vfrt.String("body", 3)
 		framing = "Content-Length: 3\r\n"
 		vfrt.Reach("c01-body-cl")
-	case 2:
+	case 2, 3:
 		method, body = "POST", vfrt.String("body", 3)
 		framing = "Transfer-Encoding: chunked\r\n"
 		vfrt.Reach("c01-body-chunked")
-	case 3:
-		method, body = "POST", vfrt.String("body", 3)
-		framing = "Transfer-Encoding: chunked\r\n"
 	}
 	bodyWire := body
-	switch framing {
-	case "Transfer-Encoding: chunked\r\n":
-		if method == "POST" && vfrt.Choice("chunks", 2) == 1 {
+	if bodyKind >= 2 {
+		if chunks2 {
 			bodyWire = "1\r\n" + body[:1] + "\r\n2\r\n" + body[1:] + "\r\n0\r\n\r\n"
 		} else {
 			bodyWire = "3\r\n" + body + "\r\n0\r\n\r\n"
 		}
 	}
 	proto := "HTTP/1.1"
-	if vfrt.Choice("http10", 2) == 1 {
+	if http10 {
 		proto = "HTTP/1.0"
-		if framing == "Transfer-Encoding: chunked\r\n" {
+		if bodyKind >= 2 {
 			vfrt.Halt() // chunked request bodies do not exist in HTTP/1.0
 		}
 	}
 	target := "http://example.com/p%20q?x=a%2Fb&y"
-	if vfrt.Choice("origin-form", 2) == 1 {
+	if originForm {
 		target = "/p%20q?x=a%2Fb&y"
 		vfrt.Reach("c01-origin-form")
 	}
@@ -144,7 +168,7 @@ func vfH_C01_pipe() {
 	}
 	sb.WriteString(framing + "\r\n" + bodyWire)
 	wire := sb.String()
-	second := vfrt.Choice("second-on-connection", 2) == 1 && !false
+	second := secondReq
 	if second {
 		wire = "GET http://example.com/first HTTP/1.1\r\nHost: example.com\r\n\r\n" + wire
 		vfrt.Reach("c01-second")
@@ -175,10 +199,28 @@ func vfH_C01_pipe() {
 	if framing == "Content-Length: 3\r\n" {
 		vfrt.Assert(got.ContentLength == 3, "c01/content-length")
 	}
+	// an upgrade is being requested when Connection carries the Upgrade token and an Upgrade field is present
+	upgrade := ""
+	for _, f := range sent {
+		if f.name == "Connection" && (f.value == "Upgrade" || f.value == "keep-alive, Upgrade") {
+			for _, g := range sent {
+				if g.name == "Upgrade" && upgrade == "" {
+					upgrade = g.value
+				}
+			}
+		}
+	}
+	if upgrade != "" {
+		vfrt.Reach("c01-upgrade")
+		vfrt.Assert(len(hdr["Upgrade"]) == 1 && hdr["Upgrade"][0] == upgrade && len(hdr["Connection"]) == 1 && hdr["Connection"][0] == "Upgrade", "c01/upgrade-and-connection-kept-for-upgrade-requests")
+	}
 	// end-to-end fields: same values in the same per-name order; hop-by-hop fields gone
 	for _, f := range sent {
 		name := f.name
 		if vfIsHop(name, sent) {
+			if upgrade != "" && (name == "Upgrade" || name == "Connection") {
+				continue
+			}
 			vfrt.Assert(len(hdr[name]) == 0, "c01/hop-by-hop-removed")
 			continue
 		}
@@ -228,6 +270,9 @@ func vfH_C01_pipe() {
 	for name := range hdr {
 		switch name {
 		case "Via", "X-Forwarded-For", "X-Forwarded-Proto", "X-Forwarded-Host", "X-Forwarded-Url", "User-Agent", "Content-Length":
+			continue
+		}
+		if upgrade != "" && (name == "Upgrade" || name == "Connection") {
 			continue
 		}
 		vfrt.Assert(len(vfValues(sent, name)) > 0, "c01/no-field-invented")
